@@ -91,6 +91,7 @@ type Ctx struct {
 	distinct map[uint64]struct{}
 	distCap  int
 	marker   *os.File
+	violLog  *os.File
 	sampleAt int64
 	sets     map[string]map[string]struct{}
 	Replaying bool
@@ -210,7 +211,14 @@ func (c *Ctx) Violation(sig string, cas any, detail string) {
 	if len(detail) > 4000 {
 		detail = detail[:4000] + "…"
 	}
-	c.res.Violations = append(c.res.Violations, Violation{Property: c.Check.ID, Sig: sig, Case: raw, Detail: detail})
+	v := Violation{Property: c.Check.ID, Sig: sig, Case: raw, Detail: detail}
+	c.res.Violations = append(c.res.Violations, v)
+	if c.violLog != nil {
+		// written through immediately: a later crash of this process must not lose the finding
+		if b, err := json.Marshal(v); err == nil {
+			c.violLog.Write(append(b, '\n'))
+		}
+	}
 }
 
 // ViolationCount is the number of violations reported so far in this context.
